@@ -200,4 +200,28 @@ theorem flat_list_calls_ok (h : Fam c A B T q fs) (hs : SvcFam c A B T q fs SA S
   rw [flat_list_callsOf_eq]
   exact ⟨_, _, subrequestsOK_of h hs svcs hsA hsB _ _ _ (by intro hn; simp [hn])⟩
 
+/-- one object: every client-selected field is selected by EXACTLY ONE request of all the calls, a
+    request to its owner -/
+theorem SubrequestsOK.exactly_one {svcs : List Svc} {i : String} {rqA : Request} {batch : List Request}
+    {calls : List Call}
+    (hok : SubrequestsOK svcs A B T fs (if (Flat.fsB fs).isEmpty then [] else [i]) rqA batch calls) :
+    ∀ f ∈ fs, ∃ rq, selecting svcs T f.1 calls = [(if f.2.2 then B else A, rq)] := by
+  intro f hf
+  rw [hok.owner f hf]
+  cases hb : f.2.2
+  · exact ⟨rqA, by simp⟩
+  · have hmem : f ∈ Flat.fsB fs := List.mem_filter.mpr ⟨hf, hb⟩
+    have hne : (Flat.fsB fs).isEmpty = false := by
+      cases hfb : Flat.fsB fs with
+      | nil => rw [hfb] at hmem; cases hmem
+      | cons _ _ => rfl
+    have hids := hok.ids
+    simp only [hne, Bool.false_eq_true, ↓reduceIte, List.map_cons, List.map_nil] at hids
+    cases batch with
+    | nil => simp at hids
+    | cons r0 rs =>
+      cases rs with
+      | nil => exact ⟨r0, by simp⟩
+      | cons _ _ => simp at hids
+
 end PebblesVerif.C02
